@@ -171,7 +171,8 @@ class Driver:
 # known findings
 # ----------------------------------------------------------------------------
 def load_known(pid):
-    p = os.path.join(VERIF, "known_findings.json")
+    """known_findings/<ID>.json: {"findings": [{property, status, signature, witness, text, commit?}]}"""
+    p = os.path.join(VERIF, "known_findings", pid + ".json")
     if not os.path.exists(p):
         return []
     return [e for e in json.load(open(p)).get("findings", [])
